@@ -80,7 +80,8 @@ Example ex_row_hyps :
   exists_scripts 2 [TB] (row_server_trl_hyp (Call false false)) = true /\
   exists_scripts 2 [TB] (row_server_hdr_hyp (Call false false)) = true /\
   exists_scripts 2 [TB] (row_nothing_hyp (Call false false)) = true /\
-  exists_scripts 2 [TB] (row_success_hyp (Call false false)) = true.
+  exists_scripts 2 [TB] (row_success_hyp (Call false false)) = true /\
+  exists_scripts 2 [TB] (row_missing_status_hyp (Call false true)) = true.
 Proof. vm_compute. repeat split; reflexivity. Qed.
 
 (* the hypothesis of the general liveness theorem on a script outside the bounded domain: five
@@ -89,7 +90,7 @@ Definition ex_long : list batch :=
   [{| b_trig := TS 1; b_events := [AH (H_ok GsAbsent MdOk) false; AD false] |};
    {| b_trig := TS 0; b_events := [AD false; AD false] |};
    {| b_trig := TB; b_events := [AD false; AD false; AT (T_of GsErr)] |}].
-Example ex_long_hyp : wf_script ex_long = true /\ has_trl_ev (events ex_long) = true.
+Example ex_long_hyp : wf_script ex_long = true /\ ev_ended (events ex_long) = true.
 Proof. vm_compute; split; reflexivity. Qed.
 Example ex_long_outcome : outcome (Open true true [RI; RM; IT]) ex_long = RExc (XServer BTrl).
 Proof. vm_compute; reflexivity. Qed.
